@@ -40,12 +40,91 @@ BLOCK_FAMILIES = {
 }
 
 
+def counter_carry_chains(chk):
+    """CTR / CCM / EAX counters are 128-bit big-endian integers kept in four 32-bit words and incremented with a constant-time carry
+    chain: word_k += carry_k, carry_{k+1} = carry_k & iszero(word_k after the addition).  Structural rule (no variable names): whenever
+    a carry is refined by "& iszero(Y)", Y must be the word that the previous carry has just been added to."""
+    R = 'counter-carry-chain'
+    n = 0
+    n1 = [0]
+    for fam in ('aes_big', 'aes_small', 'aes_ct', 'aes_ct64'):
+        src = 'src/symcipher/%s_ctrcbc.c' % fam
+        u = build.load_unit(src)
+        U = irf.Units({'u': u})
+        for fn, F in sorted(U.funcs.items()):
+            def ins(o):
+                return F.insts[o['v']] if o['k'] == 'i' else None
+
+            def iszero_arg(o):
+                """Y if o == lshr(xor(or(Y, 0 - Y), -1), 31), else None"""
+                i = ins(o)
+                if i is None or i['op'] != 'lshr' or i['ops'][1] != {'k': 'c', 'v': 31, 'w': 32}:
+                    return None
+                x = ins(i['ops'][0])
+                if x is None or x['op'] != 'xor' or not any(q['k'] == 'c' and q['v'] in (-1, 0xFFFFFFFF) for q in x['ops']):
+                    return None
+                orr = ins(next(q for q in x['ops'] if q['k'] != 'c'))
+                if orr is None or orr['op'] != 'or':
+                    return None
+                a, b = orr['ops']
+                for y, ng in ((a, b), (b, a)):
+                    g = ins(ng)
+                    if g is not None and g['op'] == 'sub' and g['ops'][0]['k'] == 'c' and g['ops'][0]['v'] == 0 and g['ops'][1] == y:
+                        return y
+                return None
+
+            def gate_arg(o):
+                y = iszero_arg(o)
+                if y is not None:
+                    return y
+                g = ins(o)
+                if g is not None and g['op'] == 'sub' and g['ops'][0]['k'] == 'c' and g['ops'][0]['v'] == 0:
+                    return iszero_arg(g['ops'][1])
+                return None
+            for i in sorted(F.insts.values(), key=lambda z: z['id']):
+                if i['op'] != 'add':
+                    continue
+                for w, c in ((i['ops'][0], i['ops'][1]), (i['ops'][1], i['ops'][0])):
+                    y = iszero_arg(c)
+                    if y is None:
+                        continue
+                    n1[0] += 1
+                    yi = ins(y)
+                    inst = '%s:%s: first carry (line %s) tests the low word right after its increment' % (fam, fn, i.get('line'))
+                    if yi is not None and yi['op'] == 'add' and any(q['k'] == 'c' for q in yi['ops']):
+                        chk.ok(R, inst, F.where(i))
+                    else:
+                        chk.violation(R, inst, F.where(i), 'the first carry is not derived from the incremented low word', key='%s first %s %s %d' % (R, fam, fn, n1[0]))
+            for i in sorted(F.insts.values(), key=lambda z: z['id']):
+                if i['op'] != 'and':
+                    continue
+                a, b = i['ops']
+                for prev, gate in ((a, b), (b, a)):
+                    y = gate_arg(gate)
+                    if y is None or prev['k'] != 'i':
+                        continue
+                    # the word the previous carry was added to
+                    adds = [z for z in F.insts.values() if z['op'] == 'add' and prev in z['ops'] and z['id'] != i['id']]
+                    if len(adds) != 1:
+                        continue
+                    n += 1
+                    inst = '%s:%s: carry refined at line %s tests the word just incremented (line %s)' % (fam, fn, i.get('line'), adds[0].get('line'))
+                    if y == {'k': 'i', 'v': adds[0]['id']}:
+                        chk.ok(R, inst, F.where(i))
+                    else:
+                        chk.violation(R, inst, F.where(i), 'the zero test that propagates the carry looks at a different word than the one the previous carry '
+                                      'was added to: the carry into the next word is wrong whenever these two words differ in being zero '
+                                      '(128-bit big-endian counter of SP 800-38A B.1 / CCM / EAX)', key='%s %s %s %d' % (R, fam, fn, n))
+    chk.floor('carry refinements checked', n, 16)
+    chk.floor('first carries checked', n1[0], 8)
+
+
 def run(tier):
     chk = report.Check('C12', tier,
                        'Constant tables of the symmetric primitives compared with values generated from their standards (FIPS 197 S-box, inverse '
                        'S-box, round constants, the merged MixColumns tables; RFC 8439 ChaCha20 constants and rotation amounts, Poly1305 modulus, '
                        'clamp masks), and every block-cipher class descriptor (block size, log2, context_size == sizeof(keys), function slots wired '
-                       'to the same implementation family). NOT decided: bitsliced circuits, key schedules, chaining/counter logic, DES tables '
+                       'to the same implementation family); the constant-time carry chains of the 128-bit CTR/CCM/EAX counters test the word just incremented. NOT decided: bitsliced circuits, key schedules, chaining logic, DES tables '
                        '(BearSSL-specific merged layout), equality of outputs across implementations.',
                        trusted=['reference generators in sa/tab.py', 'clang 14 constant folding'])
     R = 'aes-tables'
@@ -143,4 +222,5 @@ def run(tier):
             else:
                 chk.violation(R, inst, src, 'slots: %s' % slots, key='%s %s slots' % (R, gname))
     chk.floor('block classes', n, 20)
+    counter_carry_chains(chk)
     return chk.finish()
